@@ -382,7 +382,8 @@ class IntervalProd(Set):
         atol = float(atol)
 
         # First try optimized methods
-        if other in self:
+        if self.approx_contains(other, atol):
+            # Single point
             return True
         if hasattr(other, 'meshgrid'):
             return self.contains_all(other.meshgrid, atol=atol)
@@ -402,7 +403,8 @@ class IntervalProd(Set):
             else:
                 mins = np.min(other, axis=1)
                 maxs = np.max(other, axis=1)
-            return np.all(mins >= self.min_pt) and np.all(maxs <= self.max_pt)
+            return (np.all(mins >= self.min_pt - atol) and
+                    np.all(maxs <= self.max_pt + atol))
         else:
             return False
 
